@@ -161,7 +161,13 @@ class C12:
         other = []
         if rng.random() < 0.5:
             other = [["sleep", rng.choice([0.01, 0.3])] if rng.random() < 0.5 else ["addx", 10] for _ in range(rng.randint(1, 3))]
-        return {"kind": kind, "cfg": cfg, "tasks": [], "track": tr, "threads": [[["track"]], other] if other else [[["track"]]]}
+        case = {"kind": kind, "cfg": cfg, "tasks": [], "track": tr, "threads": [[["track"]], other] if other else [[["track"]]]}
+        if not other and rng.random() < 0.4:
+            m = rng.randint(0, 4)
+            case["track2"] = {"n": m, "gen": rng.random() < 0.5, "update_period": rng.choice([0.001, 0.1]),
+                              "sleeps": [rng.choice([0, 0.05, 0.3]) for _ in range(m)], "total_given": rng.random() < 0.3}
+            case["threads"] = [[["track"]], [["track"]]]
+        return case
 
     def _gen_task(self, rng, conc=False):
         total = rng.choice([100, 100, 10, 1, 0, -5, 10 ** 18, 7.5, 3])
@@ -231,7 +237,7 @@ class C12:
                             redirect_stdout=False, redirect_stderr=False)
         ctx = {
             "clock": clock, "file": f, "progress": progress, "viol": [], "hist": [], "ids": [],
-            "probes": {"neg_sample_order": 0, "total_time_zero": 0, "sample_evicted": 0, "reads": 0,
+            "probes": {"defect_sample_timestamps_out_of_order": 0, "total_time_zero": 0, "sample_evicted": 0, "reads": 0,
                        "finished_seen": 0, "track_helper": 0, "samples_gt_1000": 0},
             "added": [], "model": None, "first_ts": {}, "ready": sched.SimEvent(), "track": None, "nthreads": len(case["threads"]),
         }
@@ -264,7 +270,7 @@ class C12:
                     if pr is not None and len(pr) >= 2:
                         ts = [s.timestamp for s in pr]
                         if any(b < a for a, b in zip(ts, ts[1:])):
-                            ctx["probes"]["neg_sample_order"] += 1
+                            ctx["probes"]["defect_sample_timestamps_out_of_order"] += 1
                         if ts[-1] == ts[0]:
                             ctx["probes"]["total_time_zero"] += 1
                         if len(pr) > 1000:
@@ -410,10 +416,10 @@ class C12:
                         progress.stop()
             return run
 
-        def track_client():
-            tr = case["track"]
+        def track_client(tr=None, desc="trk", owner=True):
+            tr = tr or case["track"]
             n = tr["n"]
-            items = ["i%d" % i for i in range(n)]
+            items = ["%s%d" % (desc, i) for i in range(n)]
 
             def genf():
                 for x in items:
@@ -421,10 +427,11 @@ class C12:
 
             got = []
             try:
-                progress.start()
+                if owner:
+                    progress.start()
                 src = genf() if tr["gen"] else items
                 total = n if (tr["gen"] or tr["total_given"]) else None
-                it = progress.track(src, total=total, update_period=tr["update_period"], description="trk")
+                it = progress.track(src, total=total, update_period=tr["update_period"], description=desc)
                 j = 0
                 for v in it:
                     got.append(v)
@@ -432,7 +439,7 @@ class C12:
                         sim.sleep(tr["sleeps"][j])
                     j += 1
                 tasks = progress.tasks
-                trk = [t for t in tasks if t.description == "trk"]
+                trk = [t for t in tasks if t.description == desc]
                 if got != items:
                     viol("track-yield", "track-yield", "track yielded %r for input %r" % (got, items))
                 if len(trk) != 1:
@@ -441,11 +448,13 @@ class C12:
                     viol("track-count", "track-count", "tracked task completed %r after yielding %d elements" % (trk[0].completed, len(got)))
                 helpers = [t for t in sim.threads if t.name == "_TrackThread"]
                 ctx["probes"]["track_helper"] += len(helpers)
-                for h in helpers:
-                    if h.state != sched.DONE:
-                        viol("track-helper", "track-helper-alive", "_TrackThread still running after track() was exhausted")
+                if "track2" not in case:
+                    for h in helpers:
+                        if h.state != sched.DONE:
+                            viol("track-helper", "track-helper-alive", "_TrackThread still running after track() was exhausted")
             finally:
-                progress.stop()
+                if owner:
+                    progress.stop()
 
         def other_client():
             for k, op in enumerate(case["threads"][1]):
@@ -462,7 +471,10 @@ class C12:
                 sim.spawn(conc_client(t), "c%d" % t)
         else:
             sim.spawn(track_client, "c0")
-            if len(case["threads"]) > 1:
+            if "track2" in case:
+                # a second thread tracks its own sequence on the same Progress at the same time
+                sim.spawn(lambda: track_client(case["track2"], "trb", False), "c1")
+            elif len(case["threads"]) > 1:
                 sim.spawn(other_client, "c1")
         return ctx
 
@@ -564,6 +576,7 @@ class C12:
             if len(th) > 1:
                 c = copy.deepcopy(case)
                 c["threads"] = th[:1]
+                c.pop("track2", None)
                 yield c
             return
         if len(th) > 1:
